@@ -5,6 +5,7 @@ CONSTANTS
   NoConn = NoConn
   Listeners = @@LISTENERS@@
   CloseOnShutdown = @@COS@@
+  Mixed = @@MIXED@@
   ReduceMem = @@RMU@@
   FlushOnStop = @@FLUSH@@
   AtomicIdleClose = @@ATOMIC@@
